@@ -19,7 +19,7 @@ def shapes(tier):
     # The loop-heavy operations cost CBMC minutes per 64 columns, so the widest shape gets the cheap ones in quick.
     s = [(3, 66, 0, ALL), (2, 64, 1, CHEAP + ["count_ones", "row_iter"]), (3, 130, 0, CHEAP)]
     if tier == "thorough":
-        s += [(3, 130, 0, ["add_assign_rows", "count_ones"]), (2, 64, 1, ["swap_columns", "add_assign_rows"]), (3, 128, 2, CHEAP),
+        s += [(2, 64, 1, ["swap_columns", "add_assign_rows"]), (3, 128, 2, CHEAP),
               (4, 65, 0, ALL), (3, 63, 0, ALL), (3, 2, 0, CHEAP)]
     return s
 
